@@ -16,7 +16,7 @@ struct RouterSession : Session {
     struct PinM { int cls; double xo, yo; bool prop; double inside; unsigned dirs; bool excl; Avoid::ShapeConnectionPin *ref; };
     struct Sh { Poly poly; bool alive = false; bool isRect = false; Avoid::ShapeRef *ref = nullptr; std::vector<PinM> pins; };
     struct End { int kind = 0; Pt pt{0, 0}; unsigned dirs = 15; int shape = -1, cls = 0; int junction = -1; };   // kind 0 point, 1 shape pin, 2 junction, 3 detached
-    struct Cn { End e[2]; Avoid::ConnRef *ref = nullptr; bool alive = false; bool hyperedge = false; bool fixedRoute = false; bool detachedByDelete = false; std::vector<Pt> checkpoints; int hyper = -1; };
+    struct Cn { End e[2]; Avoid::ConnRef *ref = nullptr; bool alive = false; bool hyperedge = false; bool fixedRoute = false; bool cpStale = false; bool detachedByDelete = false; std::vector<Pt> checkpoints; int hyper = -1; };
     struct Jn { Pt pt; bool alive = false; Avoid::JunctionRef *ref = nullptr; bool fixed = false; };
     struct CbCtx { RouterSession *s; int conn; };
 
